@@ -1,4 +1,5 @@
 import OVM.Status.Lemmas
+import OVM.Status.DeadSetManifold
 /-
   C04 (status part) — `StatusAttrib::garbage_collection`: status-marked deletion, the
   `_preserveManifoldness` pass, remapping of the tracked handles.
@@ -381,5 +382,104 @@ def FullStatement : Prop :=
     Holds k (marksOf k) man t r.k r.t
       { v := r.newV, e := (List.range k.nE).map (fun e => (r.newHE.getD (2 * e) none).map (· / 2)),
         f := (List.range k.nF).map (fun f => (r.newHF.getD (2 * f) none).map (· / 2)), c := r.newC }
+
+end OVM.Props.C04Status
+
+/-! ======================= appended by builder (the erased slots are exactly the dead set) ======================= -/
+namespace OVM.Props.C04Status
+open OVM OVM.Kernel OVM.Status
+open OVM.Kernel.Logical (LogMinus LogIso Ren Rem)
+
+/-! ------------------------------------------------------------------------------------------
+    `LogMinus k k' ρ S` (OVM/Refine/Logical.lean): the logical mesh of `k'` is the logical mesh of `k` minus the set `S`,
+    renumbered by `ρ` — per kind `ρ` is a bijection from the live slots of `k` outside `S` onto the live slots of `k'`,
+    every surviving definition is found at the new handle with all handles renamed, every property column (status
+    columns included) holds at the new handle what it held at the old one.
+    `deadRem k mk man` (OVM/Status/DeadSet.lean) is the complement of `Spec.keepV/E/F/C k mk man` (OVM/Status/Spec.lean),
+    a decidable function of the start state, the `deleted()` bits `mk = marksOf k` of the four status columns and the flag:
+      dead vertex : already deleted, or marked;
+      dead edge   : already deleted, or marked, or one of its two end vertices is dead;
+      dead face   : already deleted, or marked, or the edge of one of its halfedges is dead;
+      dead cell   : already deleted, or marked, or the face of one of its halffaces is dead;
+      kept (flag off): in range and not dead;
+      kept (flag on) : additionally a face must bound a kept cell, an edge a kept face, a vertex a kept edge — ALL
+                       such entities go, not only those next to something deleted (impl.hh:81-98 loops over all faces,
+                       edges, vertices).
+    Hypotheses: `Global.GInv k` — the reachability invariant of C01 (`reach_inv`: every state a history of valid calls
+    produces; it contains `LenInv`: every status column has one slot per entity, so the mark vector `marksOf k` has the
+    length of the entity count by construction); `Fresh k` — no user column carries the name the model gives to the
+    anonymous temporary index properties of the tracking overload (a modelling device).
+    ------------------------------------------------------------------------------------------ -/
+
+/-- **`StatusAttrib::garbage_collection` without `_preserveManifoldness` erases exactly the specified dead set**, both
+    overloads (`statusGC … t` with tracked handles `t`; `statusGCPlain` = the overload without containers), from any
+    deletion mode, either deletion style, any bottom-up configuration, with or without deletions already pending: the
+    logical mesh of the result is the logical mesh of the start state minus `deadRem k (marksOf k) false`, read through
+    a renumbering `ρ`. -/
+theorem status_gc_removes_exactly_the_dead_set (k : Kernel) (hi : Global.GInv k) (hfr : Fresh k) (t : Tracked) :
+    (∃ ρ, LogMinus k (statusGC k false t).k ρ (deadRem k (marksOf k) false)) ∧
+    (∃ ρ, LogMinus k (statusGCPlain k false) ρ (deadRem k (marksOf k) false)) :=
+  ⟨statusGC_dead_noMan hi hfr t, statusGC_dead_noMan hi hfr {}⟩
+
+/-- the mark loops themselves (deferred mode on): they are ONE deferred run of the marked entities (`runDef`,
+    OVM/Refine/LogicalDeleteList.lean) — vertices, edges, faces, cells, each kind ascending —, flag exactly the dead set
+    and move nothing (`ρ = id`) -/
+theorem mark_loops_flag_exactly_the_dead_set (k : Kernel) (hi : Global.GInv k) (hd : k.deferred = true) :
+    markedCells (markedFaces (markedEdges (markedVerts k))) = Logical.runDef k (markReqs k) ∧
+    LogMinus k (markedCells (markedFaces (markedEdges (markedVerts k)))) Ren.id (deadRem k (marksOf k) false) :=
+  ⟨(mark4_eq k hd hi.wf.len).1, (mark4_logMinus hi hd).1⟩
+
+/-- **with `_preserveManifoldness`**, `_partial`: everything except the three manifoldness loops.  The state `kb` handed
+    to the loops is the start mesh minus the dead set (nothing renumbered), satisfies the invariant, is in deferred mode
+    with all three incidence kinds enabled; the loops keep the invariant (every deletion they make is of a live entity);
+    the result of `statusGC` (either overload) has the logical mesh of the state the loops leave.
+    MISSING: `LogMinus kb (manifoldVerts (manifoldEdges (manifoldFaces kb))) id M` with `M` = the live faces bounding no
+    live cell, then the live edges bounding no remaining face, then the live vertices bounding no remaining edge, i.e.
+    `deadRem k mk true` in place of `deadRem k mk false`.  Plan: each loop is a `sweep` whose condition is, by `CacheInv`
+    of the current state (`cellOf = sCellOf`, `hfsOf ~ sHfsOfHe`, `outOf ~ sOut`), "live ∧ no live entity one level up
+    contains it"; deleting such an entity flags only itself (`flagged_delete*` with empty incidence lists), so the
+    condition of the other slots does not change and `sweep_eq_runDef` + `runDef_logMinus` apply as for the mark loops.
+    Until then this clause is covered per call by the judge's oracle (`Spec.check` with `man = true`). -/
+theorem status_gc_manifold_partial (k : Kernel) (hi : Global.GInv k) (hfr : Fresh k) (t : Tracked) :
+    ∃ kb, markPhase k true = manifoldVerts (manifoldEdges (manifoldFaces kb)) ∧
+      LogMinus k kb Ren.id (deadRem k (marksOf k) false) ∧ Global.GInv kb ∧ kb.deferred = true ∧
+      kb.vBU = true ∧ kb.eBU = true ∧ kb.fBU = true ∧
+      Global.GInv (markPhase k true) ∧ ∃ ρ, LogIso (markPhase k true) (statusGC k true t).k ρ :=
+  statusGC_man_frame hi hfr t
+
+/-! non-vacuity -/
+
+/-- a tetrahedron whose face 2 has status "deleted": the hypotheses hold; the dead set is face 2 and the cell; the result
+    has the three other faces, all six edges and four vertices, and the status column lost the marked slot (the
+    evaluations are a TEST next to the theorem) -/
+example : Global.GInv tetSt ∧ Fresh tetSt ∧
+    (∃ ρ, LogMinus tetSt (statusGCPlain tetSt false) ρ (deadRem tetSt (marksOf tetSt) false)) ∧
+    (List.range 4).map (Spec.keepF tetSt (marksOf tetSt) false) = [true, true, false, true] ∧
+    Spec.keepC tetSt (marksOf tetSt) 0 = false ∧
+    (statusGCPlain tetSt false).faces = [[0, 2, 4], [6, 8, 1], [5, 11, 7]] ∧ (statusGCPlain tetSt false).cells = [] ∧
+    (statusGCPlain tetSt false).nV = 4 ∧ (statusGCPlain tetSt false).edges.length = 6 ∧
+    (statusGCPlain tetSt false).props.f = [{ key := "face_status", dflt := 0, vals := [0, 0, 0] }] := by
+  refine ⟨ginv_tetSt, fresh_tetSt, (status_gc_removes_exactly_the_dead_set tetSt ginv_tetSt fresh_tetSt {}).2, ?_, ?_, ?_,
+    ?_, ?_, ?_, ?_⟩ <;> decide +kernel
+
+/-- two tetrahedra sharing a face, the second cell marked: without the option only the cell goes (theorem + TEST); with
+    the option the three faces, three edges and the vertex that only the second cell used go too — the specification
+    `Spec.keep*` and the model agree (TEST by evaluation; the `true` case is the `_partial` theorem above) -/
+example : Global.GInv twoTetSt ∧ Fresh twoTetSt ∧
+    (∃ ρ, LogMinus twoTetSt (statusGCPlain twoTetSt false) ρ (deadRem twoTetSt (marksOf twoTetSt) false)) ∧
+    (statusGCPlain twoTetSt false).cells = [[1, 3, 5, 7]] ∧ (statusGCPlain twoTetSt false).faces.length = 7 ∧
+    (List.range 7).map (Spec.keepF twoTetSt (marksOf twoTetSt) true) = [true, true, true, true, false, false, false] ∧
+    (List.range 9).map (Spec.keepE twoTetSt (marksOf twoTetSt) true) =
+      [true, true, true, true, true, true, false, false, false] ∧
+    (List.range 5).map (Spec.keepV twoTetSt (marksOf twoTetSt) true) = [true, true, true, true, false] ∧
+    (statusGCPlain twoTetSt true).cells = [[1, 3, 5, 7]] ∧
+    (statusGCPlain twoTetSt true).faces = [[0, 2, 4], [6, 8, 1], [9, 10, 3], [5, 11, 7]] ∧
+    (statusGCPlain twoTetSt true).edges = [(0, 1), (1, 2), (2, 0), (0, 3), (3, 1), (3, 2)] ∧
+    (statusGCPlain twoTetSt true).nV = 4 ∧
+    (∃ kb, markPhase twoTetSt true = manifoldVerts (manifoldEdges (manifoldFaces kb)) ∧ Global.GInv kb) := by
+  obtain ⟨kb, e, _, g, _⟩ := status_gc_manifold_partial twoTetSt ginv_twoTetSt fresh_twoTetSt {}
+  refine ⟨ginv_twoTetSt, fresh_twoTetSt,
+    (status_gc_removes_exactly_the_dead_set twoTetSt ginv_twoTetSt fresh_twoTetSt {}).2, ?_, ?_, ?_, ?_, ?_, ?_, ?_, ?_, ?_,
+    ⟨kb, e, g⟩⟩ <;> decide +kernel
 
 end OVM.Props.C04Status
